@@ -21,8 +21,119 @@ EXPLANATION = (
 ASSUMPTIONS = ["pipe reads/writes transfer exactly the bytes requested", "unwind (panic) edges excluded",
                "child side of fork (ForkResult::Child arm and the job closures) is a different process and excluded from parent-side rules"]
 
-MY = r"jobserver::ServerState\.my_tokens"
-CH = r"jobserver::ServerState\.cheats"
+class Roles:
+    """The jobserver's own vocabulary resolved by role (names second): the two token counters and the two pipes.
+
+    my / ch      canonical 'Type.field' names of the held-token counter and the cheat counter
+    MY / CH      the same as regular expressions (for field_writes & co.)
+    account      ADT that declares the counters; holders: fields (of other structs) whose type is that ADT
+    token / cheat  canonical names of the ServerParams fields holding the token pipe / the cheat pipe"""
+
+    _cache = {}
+
+    @classmethod
+    def of(cls, prog):
+        r = cls._cache.get(id(prog))
+        if r is None or r.prog is not prog:
+            r = cls(prog)
+            cls._cache[id(prog)] = r
+        return r
+
+    def __init__(self, prog):
+        self.prog = prog
+        self.my, self.ch = counter_fields(prog)
+        self.MY, self.CH = re.escape(self.my), re.escape(self.ch)
+        self.account = self.my.rpartition(".")[0]
+        self.holders = set()
+        for name, a in prog.adts.items():
+            for v in a["variants"]:
+                for f in v["fields"]:
+                    if f["ty"] == self.account:
+                        self.holders.add("%s.%s" % (name, f["name"]))
+        self.token, self.cheat = pipe_fields(prog)
+
+
+def _field_of_operand(body, o, depth=6):
+    """Canonical name of the struct field whose value operand `o` is a copy of (through temporaries), or None."""
+    ba = BA.of(body)
+    for _ in range(depth):
+        p = op_place(o)
+        if p is None:
+            return None
+        fs = place_fields(p)
+        if fs:
+            return fs[-1]
+        d = ba.single_def(p["l"])
+        if d is None or d[0] != "stmt" or d[3]["k"] != "use":
+            return None
+        o = d[3]["op"]
+    return None
+
+
+def counter_fields(prog):
+    """(held-token counter, cheat counter) as canonical field names. By name when the reference names exist; otherwise
+    by role: the held-token counter is the integer field that ServerState::has_token compares with a constant to
+    produce its answer, the cheat counter is the one other field of the same type declared next to it."""
+    a = prog.adts.get("jobserver::ServerState")
+    names = [f["name"] for f in a["variants"][0]["fields"]] if a and len(a["variants"]) == 1 else []
+    if "my_tokens" in names and "cheats" in names:
+        return "jobserver::ServerState.my_tokens", "jobserver::ServerState.cheats"
+    ht = prog.one(r"jobserver::ServerState::has_token")
+    ba = BA.of(ht)
+    sl, _, _ = backward_direct(ht, 0, depth=40)
+    cands = set()
+    for l in sl | {0}:
+        for d in ba.defs.get(l, []):
+            if d[0] == "stmt" and d[3]["k"] == "binop" and d[3]["op"] in ("Ge", "Gt", "Ne", "Lt", "Le", "Eq"):
+                for x, y in ((d[3]["a"], d[3]["b"]), (d[3]["b"], d[3]["a"])):
+                    if const_int(y) is not None:
+                        f = _field_of_operand(ht, x)
+                        if f is not None:
+                            cands.add(f)
+    if len(cands) != 1:
+        from facts import AnchorError
+        raise AnchorError("held-token counter: ServerState::has_token compares %d fields with a constant: %s" % (len(cands), sorted(cands)))
+    my = cands.pop()
+    adt, _, fname = my.rpartition(".")
+    decl = prog.adts.get(adt)
+    ty = None
+    others = []
+    if decl and len(decl["variants"]) == 1:
+        fl = decl["variants"][0]["fields"]
+        ty = next((f["ty"] for f in fl if f["name"] == fname), None)
+        others = [f["name"] for f in fl if f["name"] != fname and f["ty"] == ty]
+    if len(others) != 1:
+        from facts import AnchorError
+        raise AnchorError("cheat counter: %s declares %d other fields of type %s next to %s" % (adt, len(others), ty, fname))
+    return my, "%s.%s" % (adt, others[0])
+
+
+def pipe_fields(prog):
+    """(token pipe, cheat pipe) as canonical names of fields of ServerParams. By name when the reference names exist;
+    otherwise by role: the token pipe is the field that JobServer::setup can fill with the pipe parsed from MAKEFLAGS
+    (parse_makeflags), the cheat pipe is the one other field of the same type."""
+    adt = "jobserver::ServerParams"
+    a = prog.adts.get(adt)
+    fl = a["variants"][0]["fields"] if a and len(a["variants"]) == 1 else []
+    names = [f["name"] for f in fl]
+    if "token_fds" in names and "cheat_fds" in names:
+        return adt + ".token_fds", adt + ".cheat_fds"
+    from facts import AnchorError
+    su = prog.one(r"jobserver::JobServer::setup")
+    inherited = taint(su, src_call=lambda t_: call_matches(t_, r"jobserver::parse_makeflags"), mode="direct")
+    cands = set()
+    for _, _, s_ in anchors.agg_sites(su, re.escape(adt)):
+        for fname, o in zip(s_["rv"].get("fields") or [], s_["rv"]["ops"]):
+            if op_local(o) is not None and op_local(o) in inherited:
+                cands.add(fname)
+    if len(cands) != 1:
+        raise AnchorError("token pipe: %d fields of ServerParams are filled from parse_makeflags in setup: %s" % (len(cands), sorted(cands)))
+    tok = cands.pop()
+    ty = next(f["ty"] for f in fl if f["name"] == tok)
+    others = [f["name"] for f in fl if f["name"] != tok and f["ty"] == ty]
+    if len(others) != 1:
+        raise AnchorError("cheat pipe: ServerParams declares %d other fields of type %s" % (len(others), ty))
+    return "%s.%s" % (adt, tok), "%s.%s" % (adt, others[0])
 
 WRITERS_MY = {
     "<jobserver::ServerState as core::default::Default>::default": "initial value 1: every process owns one token at start",
@@ -40,14 +151,30 @@ WRITERS_CH = {
 }
 
 
-def writers(prog, field_rx, adt="jobserver::ServerState"):
+def counter_aggs(R, body):
+    """Blocks of `body` that build a struct holding the token counters (ServerState, or the account struct the
+    counters were moved into) from scratch. A compiler-derived impl of that struct (field-wise Clone, ...) is not
+    accounting code."""
+    adts = {"jobserver::ServerState", R.account}
+    m = re.fullmatch(r"<(.+) as (.+)>::[A-Za-z0-9_]+", body.key)
+    if m and m.group(1) in adts:
+        decl = R.prog.adts.get(m.group(1)) or {}
+        if any(i.get("derived") and i.get("trait") == m.group(2) for i in decl.get("impls", [])):
+            return []
+    return [bb for bb, _, _ in anchors.agg_sites(body, "|".join(re.escape(a) for a in sorted(adts)))]
+
+
+def writers(prog, field_rx, R=None):
+    R = R or Roles.of(prog)
+    which = "MY" if field_rx == R.MY else "CH"
     out = {}
     for b in prog.bodies.values():
-        w = field_writes(b, field_rx)
+        w = [u.bb for u in account_updates(R, b) if u.which == which]
         if w:
-            out[b.key] = [bb for bb, _, _ in w]
-        if anchors.agg_sites(b, re.escape(adt)):
-            out.setdefault(b.key, []).extend(bb for bb, _, _ in anchors.agg_sites(b, re.escape(adt)))
+            out[b.key] = w
+        ag = counter_aggs(R, b)
+        if ag:
+            out.setdefault(b.key, []).extend(ag)
     return out
 
 
@@ -63,48 +190,59 @@ def run(ctx):
     ctx.rule("R8.9", "JobServer::setup: the inherited token pipe is used only for -j0 (an explicit -j1 or -jN gets its own jobserver); a new jobserver is primed with max_jobs - 1 extra tokens")
     ctx.rule("R8.7", "wait_all releases the process's own token only while children run; the top-level self-test runs only when none remain")
 
+    R = Roles.of(prog)
+
     # ---- R8.1
-    for fld, table, nm in ((MY, WRITERS_MY, "my_tokens"), (CH, WRITERS_CH, "cheats")):
-        w = writers(prog, fld)
+    # Audited accounting operations whose reference function may have been inlined or moved (a method of another
+    # type): their effect written out in place is the same audited operation, wherever it stands - any body may
+    # already perform it by calling the function. Recognised by effect (create_sites / destroy_sites), never by name.
+    IN_PLACE = {"jobserver::ServerState::create_tokens": create_sites, "jobserver::ServerState::destroy_tokens": destroy_sites}
+    for fld, which, table, nm in ((R.MY, "MY", WRITERS_MY, "my_tokens"), (R.CH, "CH", WRITERS_CH, "cheats")):
+        w = writers(prog, fld, R)
         found = {k for k in w if k in table}
         for k in sorted(w):
             ok, det = k in table, ("audited: " + table[k]) if k in table else "body writes ServerState.%s but is not one of the audited accounting functions" % nm
-            if not ok and nm == "my_tokens" and "jobserver::ServerState::destroy_tokens" in table:
-                # an audited accounting operation written out in place of the call: every write of the body is the
-                # effect of destroy_tokens (guarded `my_tokens -= n`), which any body may already invoke by calling it
+            if not ok:
                 b = prog.bodies[k]
-                ds = set(destroy_sites(prog, b, inline_only=True))
-                if ds and not anchors.agg_sites(b, r"jobserver::ServerState") and all(bb in ds for bb, _, _ in field_writes(b, fld)):
-                    ok, det = True, "audited effect in place: " + table["jobserver::ServerState::destroy_tokens"] + " (my_tokens -= n under assert my_tokens >= n)"
-                    if "jobserver::ServerState::destroy_tokens" not in prog.bodies:
-                        found.add("jobserver::ServerState::destroy_tokens")
+                mine = [u for u in account_updates(R, b) if u.which == which]
+                covered = {}
+                for ref, finder in IN_PLACE.items():
+                    if ref not in table:
+                        continue
+                    for st_ in (finder(prog, b, inline_only=True) if finder is create_sites else finder(prog, b, inline_only=True, sites=True)):
+                        for u in st_.upds:
+                            covered[(u.bb, u.idx, u.which)] = ref
+                if mine and not counter_aggs(R, b) and all((u.bb, u.idx, u.which) in covered for u in mine):
+                    refs = sorted({covered[(u.bb, u.idx, u.which)] for u in mine})
+                    ok, det = True, "audited effect in place: " + "; ".join(table[r_] for r_ in refs)
+                    found.update(r_ for r_ in refs if r_ not in prog.bodies)
             ctx.ob("R8.1", "writer-of-%s|%s" % (nm, k), ok, where=ctx.where(prog.bodies[k], w[k][0]), detail=det)
         ctx.floor("R8.1", "writers of %s" % nm, len(found), len(table))
         refs = [(b.key, bb) for b in prog.bodies.values() for bb, _ in field_mut_refs(b, fld)]
         ctx.ob("R8.1", "no-&mut-of-%s" % nm, not refs, where=", ".join("%s bb%d" % r for r in refs[:3]),
                detail="no mutable borrow of the counter escapes" if not refs else "counter is mutably borrowed (writes through the reference are not audited)")
     eb = prog.one(r"jobserver::JobServerHandle::ensure_token_or_cheat::\{closure#0\}")
-    wm = field_writes(eb, MY)
-    wc = field_writes(eb, CH)
-    same = False
-    if len(wm) == 1 and len(wc) == 1:
-        am = add_operand(eb, wm[0])
-        ac = add_operand(eb, wc[0])
-        same = am is not None and am == ac
-    ctx.ob("R8.1", "cheat-arm|same-amount", same, where=ctx.where(eb, wm[0][0]) if wm else eb.span,
+    eups = account_updates(R, eb)
+    wm = [u for u in eups if u.which == "MY"]
+    wc = [u for u in eups if u.which == "CH"]
+    same = (len(wm) == 1 and len(wc) == 1 and wm[0].sign == "+" and wc[0].sign == "+" and wm[0].lin == wc[0].lin
+            and together(BA.of(eb), wm[0].bb, wc[0].bb))
+    ctx.ob("R8.1", "cheat-arm|same-amount", same, where=ctx.where(eb, wm[0].bb) if wm else eb.span,
            detail="my_tokens and cheats are increased by the same operand" if same else "cheat arm does not add the same amount to my_tokens and cheats")
 
     # ---- R8.2
-    # who performs pipe I/O. write_tokens is a wrapper of unistd::write used by release / do_force_return_tokens:
-    # whether those two go through it or write themselves is the same effect, so they are audited writers too
-    # (what release writes is judged by the pairing rule below, what do_force_return_tokens writes by the
-    # cheat-pipe rule); when the wrapper does not exist nobody can call it.
+    # who performs pipe I/O. write_tokens / try_read are wrappers of unistd::write / unistd::read used by the bodies
+    # below: whether those go through the wrapper or do the system call themselves is the same effect, so they are
+    # audited callers of the system call too (what release writes is judged by the pairing rule below, what
+    # do_force_return_tokens writes by the cheat-pipe rule, what the event loop and the self-test read by theirs);
+    # when a wrapper does not exist nobody can call it.
     PIPE_WRITERS = {"jobserver::ServerState::release", "jobserver::JobServer::do_force_return_tokens"}
+    PIPE_READERS = {"jobserver::JobServer::block_on", "jobserver::AllJobsDone::test_tokens"}
     who = {
         r"jobserver::write_tokens": (PIPE_WRITERS, "jobserver::write_tokens" in prog.bodies),
-        r"jobserver::try_read": ({"jobserver::JobServer::block_on", "jobserver::AllJobsDone::test_tokens"}, True),
+        r"jobserver::try_read": (PIPE_READERS, "jobserver::try_read" in prog.bodies),
         r"nix::unistd::write": ({"jobserver::write_tokens", "jobserver::AllJobsDone::test_tokens"} | PIPE_WRITERS, True),
-        r"nix::unistd::read": ({"jobserver::try_read", "builder::StdinLogReaderBuilder::start"}, True),
+        r"nix::unistd::read": ({"jobserver::try_read", "builder::StdinLogReaderBuilder::start"} | PIPE_READERS, True),
     }
     for rx, (allowed, must_exist) in who.items():
         callers = {b.key for b in anchors.bodies_calling(prog, rx) if b.key.startswith(("jobserver::", "builder::", "state::"))}
@@ -113,77 +251,114 @@ def run(ctx):
     rel = prog.one(r"jobserver::ServerState::release")
     rba = BA.of(rel)
     # every byte count release hands to the pipe (write_tokens(fd, n) or a write of a buffer built from n) is the
-    # local incremented exactly on the non-cheat side; per released token my_tokens is decremented once
+    # number of released tokens that no cheat absorbed. Two ways to compute it are recognised:
+    #   per token   a loop that decrements my_tokens once per pass and, per pass, either cancels a cheat or counts
+    #               one token to share (the count is the local incremented exactly on the non-cheat side);
+    #   at once     my_tokens -= n and cheats -= v once each, and the count written is n - v.
     wt = rba.calls(PIPE_WRITE)
     ok = False
     det = "write_tokens operand is not the count of non-cheat decrements"
-    if wt:
+    rups = account_updates(R, rel)
+    decs_my = [u.bb for u in rups if u.which == "MY"]
+    decs_ch = [u.bb for u in rups if u.which == "CH"]
+    if wt and decs_my and decs_ch and all(u.sign == "-" for u in rups):
         incs = set()
         per_write = True
         for wb in wt:
             mine = written_count_increments(rel, wb)
             per_write = per_write and bool(mine)
             incs |= mine
-        chsw = positive_switches(rel, "jobserver::ServerState.cheats")
-        decs_my = [bb for bb, _, s in field_writes(rel, MY)]
-        decs_ch = [bb for bb, _, s in field_writes(rel, CH)]
-        if len(chsw) == 1 and per_write and incs and decs_my and decs_ch:
+        chsw = positive_switches(rel, R.ch)
+        if len(chsw) == 1 and per_write and incs:
             sw, t_t, f_t = chsw[0]
             ok = (all(rba.edge_dominates((sw, f_t), i) for i in incs)
                   and all(rba.edge_dominates((sw, t_t), i) for i in decs_ch)
                   and paired_per_pass(rba, decs_my, sorted(incs | set(decs_ch)), list(wt) + rba.returns()))
-            det = "per released token: my_tokens -= 1 always; cheats -= 1 on the cheat side; shared count += 1 exactly on the other side"
+            if ok:
+                det = "per released token: my_tokens -= 1 always; cheats -= 1 on the cheat side; shared count += 1 exactly on the other side"
+        if not ok and len(rups) == 2 and len(decs_my) == 1 and len(decs_ch) == 1:
+            um = next(u for u in rups if u.which == "MY")
+            uc = next(u for u in rups if u.which == "CH")
+            counts = [written_count(rel, wb) for wb in wt]
+            once = (rba.path([um.bb], [um.bb]) is None and rba.path([uc.bb], [uc.bb]) is None
+                    and all(rba.dominates(um.bb, wb) and rba.dominates(uc.bb, wb) for wb in wt))
+            agree = all(c is not None and c == um.lin - uc.lin for c in counts)
+            # nothing is written only when there is nothing to share
+            zero = set()
+            for c in counts:
+                if c is not None:
+                    zero |= set(zero_edges(rel, c))
+            skipped = rba.path([0], common.ok_returns(rel) or rba.returns(), avoid=frozenset(wt), cut_edges=frozenset(zero), incl=True)
+            ok = once and agree and skipped is None
+            if ok:
+                det = "my_tokens -= n and cheats -= v once each; the count written is n - v, and the write is skipped only when that is zero"
     ctx.ob("R8.2", "release|shares-non-cheat-decrements", ok, where=rel.span, detail=det)
     bo = anchors.event_loop(prog)
     bba = BA.of(bo)
-    incs = [(bb, j, s) for bb, j, s in field_writes(bo, MY)]
-    treads = fd_calls(bo, r"jobserver::try_read", "jobserver::ServerParams.token_fds")
-    ok = bool(incs) and bool(treads)
+    bfa = Feas(bo)
+    # what the event loop does to the counters: token re-creations (per child exit, judged by R8.3) and increments
+    bo_creates = create_sites(prog, bo)
+    in_create = {(u.bb, u.idx, u.which) for st_ in bo_creates for u in st_.upds}
+    bo_ups = [u for u in account_updates(R, bo) if (u.bb, u.idx, u.which) not in in_create]
+    incs = [u for u in bo_ups if u.which == "MY"]
+    treads = fd_calls(bo, READ_CALL, R.token)
+    tattempts = {fd_load_block(bo, tr, R.token) for tr in treads}
+    ok = bool(incs) and bool(treads) and not [u for u in bo_ups if u.which == "CH"]
     det = "token read and my_tokens increment are not paired"
-    for w in incs:
-        ib = w[0]
-        u = counter_update(bo, w)
+    for u in incs:
+        ib = u.bb
         # on the `one byte read` edge of a test of a token-pipe read's result, and only once per read
         one = False
         for tr in treads:
-            if not bba.dominates(tr, ib):
+            if not bfa.dominates(tr, ib):
                 continue
             res = taint(bo, seeds={bo.blocks[tr]["term"]["dest"]["l"]}, mode="direct")
-            if any(bba.dominates(tr, e[0]) and bba.edge_dominates(e, ib) for e in common.eq_const_edges(bo, lambda l: l in res, 1)):
+            if any(bfa.dominates(tr, e[0]) and bfa.edge_dominates(e, ib) for e in common.eq_const_edges(bo, lambda l: l in res, 1)):
                 one = True
-        again = bba.path([ib], [x[0] for x in incs], avoid=frozenset(treads))
-        ok = ok and one and u is not None and u[0] == "+" and const_int(u[1]) == 1 and again is None
+        again = bba.path([ib], [x.bb for x in incs], avoid=frozenset(treads) | frozenset(tattempts))
+        ok = ok and one and u.sign == "+" and u.lin.const() == 1 and again is None
+    # and the other way round: a byte taken out of the token pipe is never dropped - from the `one byte read` edge of
+    # every token-pipe read the increment lies on every path to the next read attempt / the end of the loop
+    for tr in treads:
+        res = taint(bo, seeds={bo.blocks[tr]["term"]["dest"]["l"]}, mode="direct")
+        got = [e for e in common.eq_const_edges(bo, lambda l: l in res, 1) if bfa.dominates(tr, e[0])]
+        lost = bba.path([tg for _, tg in got], sorted(tattempts) + bba.returns(), avoid=frozenset(x.bb for x in incs), incl=True) if got else [tr]
+        if lost is not None:
+            ok = False
+            det = "a byte read from the token pipe is not counted: the token is lost"
     if ok:
         det = "my_tokens += 1 exactly in the arm where one byte was read from the token pipe"
-    ctx.ob("R8.2", "block_on|token-read-increments-once", ok, where=ctx.where(bo, incs[0][0]) if incs else bo.span, detail=det)
+    ctx.ob("R8.2", "block_on|token-read-increments-once", ok, where=ctx.where(bo, incs[0].bb) if incs else bo.span, detail=det)
     frt = prog.one(r"jobserver::JobServer::do_force_return_tokens")
     fba = BA.of(frt)
-    wt = fd_calls(frt, PIPE_WRITE, "jobserver::ServerParams.cheat_fds")
+    wt = fd_calls(frt, PIPE_WRITE, R.cheat)
     dt = destroy_sites(prog, frt)
     # (every pipe write of this function is such a cheat-pipe write: it returns real tokens only through release)
     ok = bool(wt) and bool(dt) and all(any(fba.dominates(d, x) for d in dt) for x in wt) and set(fba.calls(PIPE_WRITE)) == set(wt)
     ctx.ob("R8.2", "force_return|cheat-pipe-after-destroy", bool(ok), where=frt.span,
            detail="cheat pipe is written only after destroy_tokens(cheats)" if ok else "cheat byte written without destroying the cheated token")
 
-    # the top-level self-test puts back exactly what it took out
+    # the top-level self-test puts back exactly what it took out: the bytes written to the token pipe are a slice
+    # `buf[..n]` where buf is the buffer a token-pipe read filled and n is what that same read returned (followed
+    # through the locals / struct fields / Option and Result wrappers the values travel in)
     tt = prog.one(r"jobserver::AllJobsDone::test_tokens")
     tba = BA.of(tt)
-    wr = fd_calls(tt, r"nix::unistd::write", "jobserver::ServerParams.token_fds")
-    trs = fd_calls(tt, r"jobserver::try_read", "jobserver::ServerParams.token_fds")
+    wr = fd_calls(tt, r"nix::unistd::write", R.token)
+    trs = fd_calls(tt, READ_CALL, R.token)
     ok = False
     det = "write-back not recognised"
     if len(wr) == 1 and len(trs) == 1:
         sl, org, _ = backward_direct(tt, op_local(tt.blocks[wr[0]]["term"]["args"][1]), depth=60)
         idx = [o for o in org if o[0] == "call" and any("ops::index::Index" in p_ for p_ in callee_paths(o[2]))]
         if idx:
-            buf = tba.base_local_of_ref(op_local(idx[0][2]["args"][0]))
-            rng = op_local(idx[0][2]["args"][1])
-            rsl, rorg, _ = backward_direct(tt, rng, depth=60)
-            # the range end derives from the try_read of the token pipe whose buffer is the same array
             first = trs[0]
-            same_buf = tba.base_local_of_ref(op_local(tt.blocks[first]["term"]["args"][1])) == buf
-            cnt = taint(tt, seeds={tt.blocks[first]["term"]["dest"]["l"]}, mode="direct", through=re.compile(r"core::option::Option::unwrap_or"))
-            ok = same_buf and bool(rsl & cnt)
+            rt = tt.blocks[first]["term"]
+            buf0 = tba.base_local_of_ref(op_local(rt["args"][1]))
+            from_buf = taint(tt, seeds={buf0}, mode="direct")
+            cnt = taint(tt, seeds={rt["dest"]["l"]}, mode="direct", through=re.compile(r"core::option::Option::unwrap_or"))
+            same_buf = op_local(idx[0][2]["args"][0]) in from_buf
+            same_cnt = op_local(idx[0][2]["args"][1]) in cnt
+            ok = same_buf and same_cnt
             det = "write(token_fds.1, &buf[..n]) with buf and n from the same try_read of the token pipe" if ok else "the self-test does not write back the bytes it read"
     ctx.ob("R8.2", "test_tokens|writes-back-what-it-read", ok, where=tt.span, detail=det)
 
@@ -199,35 +374,37 @@ def run(ctx):
     allowed = {"jobserver::JobServerHandle::start", "builder::StdinLogReaderBuilder::start", "state::LockManager::detect_broken_locks"}
     ctx.ob("R8.3", "who-forks", forkers <= allowed, detail="fork callers: %s" % sorted(forkers))
     # child-exit arm
-    # Stated per child exit = per execution of the cheat-pipe read (the try_read whose fd operand is
-    # ServerParams.cheat_fds): until the job is forgotten (wait_fds.remove) or the next cheat read,
+    # Stated per child exit = per execution of the cheat-pipe read (the read whose fd operand is the cheat pipe of
+    # ServerParams): until the job is forgotten (wait_fds.remove) or the next cheat read,
     #   one byte read (the edge `count == 1` of a test of that read's result) => no create_tokens;
     #   any other outcome => create_tokens before the job is forgotten;
     # every create_tokens of the event loop is create_tokens(1) answering such a read.
-    creads = fd_calls(bo, r"jobserver::try_read", "jobserver::ServerParams.cheat_fds")
-    cts = bba.calls(r"jobserver::ServerState::create_tokens")
+    creads = fd_calls(bo, READ_CALL, R.cheat)
+    cts = [x.entry for x in bo_creates]
     removes = bba.calls(r"std::collections::hash::map::HashMap::remove")
     ok = False
     det = "child-exit arm not recognised"
     if creads and cts and removes:
         ok = True
-        for ct in cts:
-            if const_int(bo.blocks[ct]["term"]["args"][1]) != 1 or not any(bba.dominates(cr, ct) for cr in creads):
+        cattempt = {cr: fd_load_block(bo, cr, R.cheat) for cr in creads}
+        for x in bo_creates:
+            if x.amount is None or x.amount.const() != 1 or not any(bba.dominates(cattempt[cr], x.entry) for cr in creads):
                 ok = False
                 det = "the event loop creates tokens other than the one token of an exited child"
         for cr in creads:
             res = taint(bo, seeds={bo.blocks[cr]["term"]["dest"]["l"]}, mode="direct")
-            eat = [e for e in common.eq_const_edges(bo, lambda l: l in res, 1) if bba.dominates(cr, e[0])]
+            eat = [e for e in common.eq_const_edges(bo, lambda l: l in res, 1) if bfa.dominates(cr, e[0])]
             if not eat:
                 ok = False
                 det = "child-exit arm not recognised (no test of the cheat-pipe read for one byte)"
                 continue
             tgs = [tg for _, tg in eat]
-            p = bba.path(tgs, cts, avoid=frozenset(removes) | {cr}, incl=True)
-            # every other outcome of the read recreates the token before the job is forgotten
-            r2 = bba.reach_from([cr], avoid=frozenset(cts) | frozenset(tgs) | {cr})
-            leak = [x for x in removes if x in r2]
-            if p is not None or leak:
+            at = cattempt[cr]
+            p = bba.path(tgs, cts, avoid=frozenset(removes) | {cr, at}, incl=True)
+            # every other outcome of the read attempt recreates the token before the job is forgotten
+            cut = frozenset(eat)
+            leak = bfa.path([at], removes, avoid=frozenset(cts) | {at}, cut_edges=cut)
+            if p is not None or leak is not None:
                 ok = False
                 det = "child exit can %s" % ("recreate a token although a cheat byte was eaten" if p is not None else "forget the job without recreating its token")
         if ok:
@@ -244,11 +421,12 @@ def run(ctx):
     # ---- R8.8
     S = anchors.scheduler(prog)
     s_ba = BA.of(S)
-    cw = classify_waits(S, prog)
-    gains = {r for _, r in cw["gain"] if r is not None}
+    tp = TokenPoints(prog, S)
+    gains = tp.gains
     ends = common.ok_returns(S) or s_ba.returns()
-    pts = [("wait_all-resume", r, p) for p, r in cw["loss"] if r is not None]
-    pts += [("release_mine-return", S.blocks[i]["term"].get("target"), i) for i in s_ba.calls(r"jobserver::JobServerHandle::release_mine")]
+    # (a coroutine awaited in place that can end without the token it gave away is a loss point of the scheduler
+    # here; one that re-acquires it before it ends is not: TokenPoints)
+    pts = [x for x in tp.loss if x[0] != "job-start-return"]
     for k, (nm, lb, at) in common.ordinal_keys([(x[0], x) for x in pts]):
         if lb is None:
             continue
@@ -266,7 +444,7 @@ def run(ctx):
     # `max_jobs == 0` side of a test of the function's argument (whatever the idiom: match arm, ==, !=, !).
     eq0 = common.eq_const_edges(su, lambda l: l is not None and common.copy_root(su, l) == 1, 0)
     inherited = taint(su, src_call=lambda t_: call_matches(t_, r"jobserver::parse_makeflags"), mode="direct")
-    fidx = adt_field_index(prog, "jobserver::ServerParams", "token_fds")
+    fidx = adt_field_index(prog, "jobserver::ServerParams", R.token.rpartition(".")[2])
     used = set()
     for _, _, s_ in anchors.agg_sites(su, r"jobserver::ServerParams"):
         if fidx is not None and fidx < len(s_["rv"]["ops"]) and op_local(s_["rv"]["ops"][fidx]) is not None:
@@ -277,16 +455,15 @@ def run(ctx):
     ok = bool(eq0) and bool(somes) and all(any(uba.edge_dominates(e, x) for e in eq0) for x in somes)
     ctx.ob("R8.9", "setup|inherited-pipe-only-for-j0", ok, where=ctx.where(su, somes[0]) if somes else su.span,
            detail="token_fds = Some(inherited pipe) only on the max_jobs == 0 arm" if ok else "an explicit -j1/-jN keeps using the parent's token pipe: the requested limit is ignored below it")
-    ct = uba.calls(r"jobserver::ServerState::create_tokens")
+    ct = create_sites(prog, su)
     ok = False
     if ct:
-        sl, org, ar = backward_direct(su, op_local(su.blocks[ct[0]]["term"]["args"][1]))
-        subs = []
-        for l in sl:
-            for d in uba.defs.get(l, []):
-                if d[0] == "stmt" and d[3]["k"] == "binop" and d[3]["op"].startswith("Sub") and const_int(d[3]["b"]) == 1:
-                    subs.append(d)
-        ok = bool(subs) and 1 in sl
+        # the amount is `x - 1` with x computed from max_jobs (`if max_jobs == 0 {1} else {max_jobs}`,
+        # `max(max_jobs, 1)`, ...), whatever temporaries and checked-arithmetic pairs it travels through
+        from_max = taint(su, seeds={1}, mode="derived")
+        am = ct[0].amount
+        ok = (am is not None and am.c == -1 and len(am.t) == 1 and list(am.t.values()) == [1]
+              and all(len(a_) == 2 and a_[0] == "l" and a_[1] in from_max for a_ in am.t))
     ctx.ob("R8.9", "setup|primed-with-max_jobs-1", ok, where=su.span, detail="create_tokens(realmax - 1) with realmax derived from max_jobs" if ok else "the new jobserver is not primed with max_jobs - 1 tokens")
 
     # ---- R8.6
@@ -296,10 +473,14 @@ def run(ctx):
         d = dj[0]
         dba = BA.of(d)
         calls = dba.calls(r"jobserver::JobServer::do_force_return_tokens")
-        sws = common.field_switches(d, "jobserver::JobServer.dropped")
-        if calls and len(sws) == 1:
-            sw, t_t, f_t = sws[0]
-            p = dba.path([f_t], dba.returns(), avoid=frozenset(calls), incl=True)
+        # "already done" is whatever do_force_return_tokens records about itself in the JobServer (a bool set to
+        # true, an enum set to a variant, ...): drop() may skip the call only on an edge taken exactly when a test
+        # of that field finds the recorded value
+        done_edges = set()
+        for fld, val in self_marks(frt):
+            done_edges |= set(field_value_edges(d, fld, val))
+        if calls and done_edges:
+            p = dba.path([0], dba.returns(), avoid=frozenset(calls), cut_edges=frozenset(done_edges), incl=True)
             ok = p is None
     ctx.ob("R8.6", "Drop-for-JobServer|returns-tokens-unless-done", ok, where=dj[0].span if dj else "",
            detail="drop() calls do_force_return_tokens unless already done" if ok else "JobServer can be dropped without returning its tokens")
@@ -319,7 +500,10 @@ def run(ctx):
                detail="every return after block_on passes force_return_tokens" if ok else "a path after block_on returns without force_return_tokens (only Drop remains)")
     S = anchors.scheduler(prog)
     fcl = {cl.key for _, _, cl in anchors.fork_closures(prog)}
-    reach = ctx.cg.reachable([S.key, bo.key], stop=frozenset(fcl))
+    # (what is built or called only in the ForkResult::Child arm of the fork point - a closure handed to a
+    # combinator there, a helper - runs in the child like the arm itself)
+    reach = ctx.cg.reachable([S.key, bo.key], stop=frozenset(fcl),
+                             site_filter=lambda k_, bb_, tg_, kind_: not (k_ == st.key and bb_ >= 0 and in_child_arm(st, bb_)))
     bad = []
     for k in sorted(reach):
         if k == "<indirect>":
@@ -339,20 +523,19 @@ def run(ctx):
     pba = BA.of(poll)
     # releases of one token that may be the process's last one: release_mine / release(fds, 1), except where the
     # process is known to hold at least two (the surplus loop `while my_tokens >= 2 { release(fds, 1) }`)
-    plenty = ge_edges(poll, "jobserver::ServerState.my_tokens", at_least=2)
-    rm = [r for r in release_sites(poll, "one") if not any(pba.edge_dominates(e, r) for e in plenty)]
-    running = pba.switches_on_call(r"jobserver::ServerState::is_running")
+    plenty = ge_edges(poll, R.my, at_least=2)
+    rm = [r for r in release_sites(poll, "one", prog) if not any(pba.edge_dominates(e, r) for e in plenty)]
+    # "children are running" tests: is_running() itself or a function that hands its result through
+    running = switches_on_result(prog, poll, r"jobserver::ServerState::is_running")
     ok = False
     if rm and running:
-        sw, t_t, f_t, _ = running[0]
-        ok = all(pba.edge_dominates((sw, t_t), r) for r in rm)
+        ok = all(any(pba.edge_dominates((sw, t_t), r) for (sw, t_t, f_t, _) in running) for r in rm)
     ctx.ob("R8.7", "AllJobsDone::poll|release_mine-only-while-running", ok, where=poll.span,
            detail="release_mine() is dominated by is_running() == true" if ok else "own token can be released although no child runs (a terminating redo would exit without a token)")
     tt = pba.calls(r"jobserver::AllJobsDone::test_tokens")
     ok = False
     if tt and running:
-        sw, t_t, f_t, _ = running[0]
-        ok = all(pba.edge_dominates((sw, f_t), r) for r in tt)
+        ok = all(any(pba.edge_dominates((sw, f_t), r) for (sw, t_t, f_t, _) in running) for r in tt)
     ctx.ob("R8.7", "AllJobsDone::poll|self-test-only-when-idle", ok, where=poll.span,
            detail="test_tokens() is dominated by is_running() == false" if ok else "token self-test may run while children still hold tokens")
 
@@ -382,6 +565,58 @@ def written_count_increments(body, wb):
                 st.extend(p["l"] for p in rvalue_places(rv))
             elif d[0] == "call":
                 st.extend(op_local(a) for a in d[2]["args"])
+    return out
+
+
+def written_count(body, wb):
+    """The number of bytes the pipe write at block wb puts into the pipe, as a linear expression: the count operand
+    of write_tokens(fd, n), or the n of a buffer built as repeat(byte).take(n).collect() for write(fd, &buf)."""
+    ba = BA.of(body)
+    t = body.blocks[wb]["term"]
+    if len(t["args"]) < 2:
+        return None
+    if call_matches(t, r"jobserver::write_tokens"):
+        return common.lin_of(body, t["args"][1])
+    seen, st = set(), [op_local(t["args"][1])]
+    while st and len(seen) < 80:
+        x = st.pop()
+        if x in seen or x is None:
+            continue
+        seen.add(x)
+        for d in ba.defs.get(x, []):
+            if d[0] == "stmt":
+                st.extend(p_["l"] for p_ in rvalue_places(d[3]))
+            elif d[0] == "call":
+                if any(re.fullmatch(r"(.*::)?Iterator>?::take|core::iter::traits::iterator::Iterator::take", p_) for p_ in callee_paths(d[2])) and len(d[2]["args"]) == 2:
+                    return common.lin_of(body, d[2]["args"][1])
+                st.extend(op_local(a) for a in d[2]["args"])
+    return None
+
+
+def zero_edges(body, amount):
+    """CFG edges [(switch_bb, target)] on which the amount (a Lin) is known not to be positive: the false side of
+    `x > 0` / `x >= 1` / `x != 0`, the true side of `x <= 0` / `x < 1` / `x == 0`, for x equal to the amount."""
+    ba = BA.of(body)
+    out = []
+    for i in sorted(ba.live):
+        bs = ba.bool_switch(i)
+        if not bs:
+            continue
+        t_t, f_t, (kind, info) = bs
+        if kind != "binop" or t_t == f_t:
+            continue
+        rv = info[1]
+        op, a, b = rv["op"], rv["a"], rv["b"]
+        if const_int(a) is not None and const_int(b) is None:
+            a, b = b, a
+            op = {"Lt": "Gt", "Gt": "Lt", "Le": "Ge", "Ge": "Le"}.get(op, op)
+        k = const_int(b)
+        if k is None or common.lin_of(body, a) != amount:
+            continue
+        if (op, k) in (("Gt", 0), ("Ge", 1), ("Ne", 0)):
+            out.append((i, f_t))
+        elif (op, k) in (("Le", 0), ("Lt", 1), ("Eq", 0)):
+            out.append((i, t_t))
     return out
 
 
@@ -451,12 +686,9 @@ def counter_update(body, w):
 
 
 def same_amount(body, o1, o2):
-    """Two operands denote the same amount: equal integer constants or copies of one local."""
-    k1, k2 = const_int(o1), const_int(o2)
-    if k1 is not None or k2 is not None:
-        return k1 == k2
-    l1, l2 = op_local(o1), op_local(o2)
-    return l1 is not None and l2 is not None and common.copy_root(body, l1) == common.copy_root(body, l2)
+    """Two operands denote the same amount: equal as linear expressions over the values they are computed from
+    (equal integer constants, copies of one local, `n - c` twice, ...)."""
+    return common.lin_of(body, o1) == common.lin_of(body, o2)
 
 
 def panics_straight(body, bb):
@@ -516,39 +748,332 @@ def ge_edges(body, field, amount=None, at_least=None):
     return out
 
 
-def destroy_sites(prog, body, amount=None, inline_only=False):
+class Feas:
+    """BA's dominance / path relations refined by path feasibility (core.FAXM), consulted only when the plain CFG
+    answer is negative: every feasible path is a CFG path, so a positive CFG answer stands. Used where a spliced
+    helper's Option/Result value is re-split by its caller, which creates CFG paths no execution takes.
+    Dominance is refined *locally*: with E the closest block that dominates both a and b in the CFG, `a dominates b`
+    holds if no feasible path leads from E to b around a (every path to b passes E, and what happens before E cannot
+    make a path after it feasible: the walk from E starts with nothing known). This keeps the (block, known values)
+    state space to the region between E and b instead of the whole event loop."""
+
+    def __init__(self, body):
+        from core import FAXM as FAX
+        self.ba = BA.of(body)
+        self.fa = FAX.of(body)
+
+    def _fork(self, a, b):
+        dom = self.ba.dom
+        both = [d for d in dom.get(b, ()) if d in dom.get(a, ()) and d != b]
+        if not both:
+            return None
+        return max(both, key=lambda d: len(dom[d]))
+
+    def _outside(self, e, b):
+        """Blocks that lie on no CFG path from e to b that does not come back to e (the walk need not enter them)."""
+        body = self.ba.b
+        seen = {b}
+        st = [b]
+        while st:
+            x = st.pop()
+            for q in body.pred(x):
+                if q != e and q not in seen:
+                    seen.add(q)
+                    st.append(q)
+        return frozenset(x for x in self.ba.live if x not in seen) | frozenset([e])
+
+    def dominates(self, a, b):
+        if self.ba.dominates(a, b):
+            return True
+        e = self._fork(a, b)
+        if e is None or b not in self.ba.live or a == e:
+            return False
+        return self.fa.path([e], [b], avoid=self._outside(e, b) | frozenset([a])) is None
+
+    def edge_dominates(self, edge, b):
+        if self.ba.edge_dominates(edge, b):
+            return True
+        e = self._fork(edge[0], b)
+        if e is None:
+            return False
+        return self.fa.path([e], [b], avoid=self._outside(e, b), cut_edges=frozenset([edge])) is None
+
+    def path(self, starts, goal, avoid=frozenset(), cut_edges=frozenset(), incl=False):
+        if self.ba.path(starts, goal, avoid=avoid, cut_edges=cut_edges, incl=incl) is None:
+            return None
+        return self.fa.path(starts, goal, avoid=avoid, cut_edges=cut_edges, incl=incl)
+
+
+class Upd:
+    """One assignment of a token counter: which ('MY' held tokens | 'CH' cheats), block, statement index, statement,
+    sign ('+' / '-' for `f = f +/- k`, 'set' for any other assignment) and the amount k (operand, linear form)."""
+    __slots__ = ("which", "bb", "idx", "stmt", "sign", "k", "lin")
+
+    def __init__(self, which, bb, idx, stmt, sign, k, lin):
+        self.which, self.bb, self.idx, self.stmt, self.sign, self.k, self.lin = which, bb, idx, stmt, sign, k, lin
+
+    def __repr__(self):
+        return "Upd(%s %s %s @bb%d)" % (self.which, self.sign, self.lin, self.bb)
+
+
+def account_updates(R, body):
+    """Every assignment of the two token counters in `body` (live, non-cleanup), in block order. An assignment of a
+    whole struct that contains the counters (a holder field) counts as a 'set' of both."""
+    out = []
+    for which, rx in (("MY", R.MY), ("CH", R.CH)):
+        for w in field_writes(body, rx):
+            u = counter_update(body, w)
+            if u is None:
+                out.append(Upd(which, w[0], w[1], w[2], "set", None, None))
+            else:
+                out.append(Upd(which, w[0], w[1], w[2], u[0], u[1], common.lin_of(body, u[1])))
+    if R.holders:
+        for w in field_writes(body, "|".join(re.escape(h) for h in sorted(R.holders))):
+            for which in ("MY", "CH"):
+                out.append(Upd(which, w[0], w[1], w[2], "set", None, None))
+    return sorted(out, key=lambda u: (u.bb, u.idx, u.which))
+
+
+def together(ba, b1, b2):
+    """Blocks b1 and b2 are executed together: one dominates the other and, once the first has run, the other runs
+    before the function returns or the first runs again (panics aside)."""
+    if b1 == b2:
+        return True
+    if ba.dominates(b1, b2):
+        first, second = b1, b2
+    elif ba.dominates(b2, b1):
+        first, second = b2, b1
+    else:
+        return False
+    return ba.path([first], ba.returns() + [first], avoid=frozenset([second])) is None
+
+
+class Site:
+    """A place where an audited accounting operation happens: a call of the reference function ('call') or its effect
+    written out in place ('inplace': the helper was inlined, moved into a method of another type, ...).
+    entry: the block to use in dominance / path queries; blocks: all blocks that belong to it; amount: Lin."""
+    __slots__ = ("kind", "entry", "blocks", "amount", "upds")
+
+    def __init__(self, kind, entry, blocks, amount, upds=()):
+        self.kind, self.entry, self.blocks, self.amount, self.upds = kind, entry, set(blocks), amount, list(upds)
+
+
+def _call_amount(body, bb, arg=1):
+    args = body.blocks[bb]["term"]["args"]
+    return common.lin_of(body, args[arg]) if len(args) > arg else None
+
+
+def create_sites(prog, body, inline_only=False):
+    """Where `body` materialises n tokens with the cheats absorbing first (what ServerState::create_tokens does):
+    calls of create_tokens, or the effect in place: the held-token counter grows by a and the cheat counter shrinks
+    by s in one go (both or neither), which creates a + s tokens. (No other audited operation moves the two counters
+    in these directions: cheating raises both, releasing lowers both, destroying and receiving touch one.)"""
+    R = Roles.of(prog)
+    ba = BA.of(body)
+    out = []
+    if not inline_only:
+        for i in ba.calls(r"jobserver::ServerState::create_tokens"):
+            out.append(Site("call", i, [i], _call_amount(body, i)))
+    ups = account_updates(R, body)
+    used = set()
+    for m in ups:
+        if m.which != "MY" or m.sign != "+":
+            continue
+        for c in ups:
+            if c.which != "CH" or c.sign != "-" or id(c) in used:
+                continue
+            if together(ba, m.bb, c.bb):
+                used.add(id(c))
+                used.add(id(m))
+                first = m.bb if ba.dominates(m.bb, c.bb) else c.bb
+                out.append(Site("inplace", first, [m.bb, c.bb], m.lin + c.lin, [m, c]))
+                break
+    # the same effect token by token: on the two sides of a `cheats > 0` test either a cheat is cancelled or a token
+    # materialises, one per pass; in a loop over a range a..b that makes b - a tokens, outside a loop one
+    for m in ups:
+        if m.which != "MY" or m.sign != "+" or id(m) in used or m.lin.const() != 1:
+            continue
+        for c in ups:
+            if c.which != "CH" or c.sign != "-" or id(c) in used or c.lin.const() != 1:
+                continue
+            sws = [(sw, t_t, f_t) for (sw, t_t, f_t) in positive_switches(body, R.ch)
+                   if ba.edge_dominates((sw, t_t), c.bb) and ba.edge_dominates((sw, f_t), m.bb)]
+            if not sws:
+                continue
+            sw = sws[0][0]
+            loop = counted_loop(body, sw)
+            if loop is not None and not all(ba.dominates(loop[2], x) and ba.path([x], [loop[2]], incl=True) is not None for x in (m.bb, c.bb)):
+                continue
+            used.add(id(c))
+            used.add(id(m))
+            out.append(Site("inplace", loop[0] if loop else sw, [m.bb, c.bb], loop[1] if loop else common.Lin(1), [m, c]))
+            break
+    return sorted(out, key=lambda x: x.entry)
+
+
+def counted_loop(body, bb):
+    """If block bb is inside a `for _ in a..b` loop (every pass starts with Iterator::next on a Range built in this
+    body): (block where the range iterator is made, number of passes b - a as Lin, block of the next() call)."""
+    ba = BA.of(body)
+    nexts = [n for n in ba.calls(r".*::iterator::Iterator>?::next")
+             if ba.dominates(n, bb) and ba.path([bb], [n], incl=True) is not None]
+    if not nexts:
+        return None
+    n = max(nexts, key=lambda x: len(ba.dom[x]))
+    t = body.blocks[n]["term"]
+    l = ba.base_local_of_ref(op_local(t["args"][0])) if t["args"] else None
+    entry = None
+    for _ in range(6):
+        d = ba.single_def(l) if l is not None else None
+        if d is None:
+            return None
+        if d[0] == "call":
+            if not any(re.fullmatch(r"(.*::)?into_iter", p_) for p_ in callee_paths(d[2])) or not d[2]["args"]:
+                return None
+            entry = d[1]
+            l = op_local(d[2]["args"][0])
+            continue
+        if d[0] != "stmt":
+            return None
+        rv = d[3]
+        if rv["k"] == "use":
+            l = op_local(rv["op"])
+            continue
+        if rv["k"] == "agg" and rv.get("adt") == "core::ops::range::Range" and rv.get("fields") == ["start", "end"]:
+            if entry is None:
+                entry = d[1]
+            return (entry, common.lin_of(body, rv["ops"][1]) - common.lin_of(body, rv["ops"][0]), n)
+        return None
+    return None
+
+
+def destroy_sites(prog, body, amount=None, inline_only=False, sites=False):
     """Blocks of `body` where n owned tokens are destroyed: calls of ServerState::destroy_tokens, or its
-    effect written out in place (`my_tokens -= n` on the `my_tokens >= n` side of an assertion of the same n:
-    what destroy_tokens does). amount: only sites destroying exactly that constant number."""
+    effect written out in place (`my_tokens -= n` on the `my_tokens >= n` side of an assertion of the same n, the
+    cheat counter untouched: what destroy_tokens does). amount: only sites destroying exactly that constant number.
+    sites=True returns Site objects instead of blocks."""
+    R = Roles.of(prog)
     ba = BA.of(body)
     out = []
     for i in ([] if inline_only else ba.calls(r"jobserver::ServerState::destroy_tokens")):
-        if amount is None or const_int(body.blocks[i]["term"]["args"][1]) == amount:
-            out.append(i)
-    for w in field_writes(body, MY):
-        u = counter_update(body, w)
-        if u is None or u[0] != "-":
+        am = _call_amount(body, i)
+        if amount is None or (am is not None and am.const() == amount):
+            out.append(Site("call", i, [i], am))
+    ups = account_updates(R, body)
+    for u in ups:
+        if u.which != "MY" or u.sign != "-":
             continue
-        if amount is not None and const_int(u[1]) != amount:
+        if amount is not None and u.lin.const() != amount:
             continue
-        guards = [e for e in ge_edges(body, "jobserver::ServerState.my_tokens", amount=u[1])
-                  if ba.edge_dominates(e, w[0]) and any(panics_straight(body, s) for s in body.succ(e[0]) if s != e[1])]
+        if any(c.which == "CH" and together(ba, u.bb, c.bb) for c in ups):
+            continue            # the cheat counter moves with it: giving tokens back (release), not destroying them
+        guards = [e for e in ge_edges(body, R.my, amount=u.k)
+                  if ba.edge_dominates(e, u.bb) and any(panics_straight(body, s_) for s_ in body.succ(e[0]) if s_ != e[1])]
         if guards:
-            out.append(w[0])
-    return sorted(set(out))
+            out.append(Site("inplace", u.bb, [u.bb], u.lin, [u]))
+    out.sort(key=lambda x: x.entry)
+    if sites:
+        return out
+    return sorted({x.entry for x in out})
 
 
-def release_sites(body, kind):
+READ_CALL = r"jobserver::try_read|nix::unistd::read"
+
+
+def nonblocking_select(body, bb):
+    """Is the select() at block bb a poll that cannot block: its timeout argument is `Some(&mut tv)` with tv built
+    from an all-zero timeval? (try_read's readiness probe, as opposed to the event loop's wait.)"""
+    ba = BA.of(body)
+    t = body.blocks[bb]["term"]
+    if len(t["args"]) < 5:
+        return False
+    l = op_local(t["args"][4])
+    for _ in range(12):
+        if l is None:
+            return False
+        d = ba.single_def(l)
+        if d is None:
+            return False
+        if d[0] == "call":
+            if not any(re.fullmatch(r"(.*::)?(into|from)", p_) for p_ in callee_paths(d[2])) or len(d[2]["args"]) != 1:
+                return False
+            l = op_local(d[2]["args"][0])
+            continue
+        if d[0] != "stmt":
+            return False
+        rv = d[3]
+        if rv["k"] == "agg" and rv.get("agg") == "adt":
+            if rv.get("adt") == "core::option::Option":
+                if rv.get("variant") != "Some":
+                    return False
+                l = op_local(rv["ops"][0])
+                continue
+            return bool(rv["ops"]) and all(const_int(o) == 0 for o in rv["ops"])
+        if rv["k"] == "ref":
+            if rv["place"]["p"]:
+                return False
+            l = rv["place"]["l"]
+            continue
+        if rv["k"] == "use":
+            l = op_local(rv["op"])
+            continue
+        return False
+    return False
+
+
+def blocking_selects(body):
+    """The select() calls of `body` that may wait."""
+    return [i for i in BA.of(body).calls(r"nix::sys::select::select") if not nonblocking_select(body, i)]
+
+
+def result_wrappers(prog, rx, depth=2):
+    """Keys of local plain functions whose return value is, on every path, the unmodified result of a call
+    matching rx (or of such a function): `fn is_running(&self) -> bool { self.state.borrow().is_running() }`."""
+    if isinstance(rx, str):
+        rx = re.compile(rx)
+    out = set()
+    for _ in range(depth):
+        more = set()
+        for b in prog.bodies.values():
+            if b.key in out or b.kind not in ("Fn", "AssocFn") or b.coroutine or rx.fullmatch(b.key):
+                continue
+            org = common.value_origins(b, 0)
+            if org and all(k == "call" and (call_matches(t, rx) or any(p_ in out for p_ in callee_paths(t))) for (k, _, t) in org):
+                more.add(b.key)
+        if not more:
+            break
+        out |= more
+    return out
+
+
+def switches_on_result(prog, body, rx):
+    """BA.switches_on_call for calls matching rx or a result_wrapper of it:
+    [(switch_bb, true_target, false_target, call_bb)]."""
+    ws = result_wrappers(prog, rx)
+    ba = BA.of(body)
+    out = []
+    for i in sorted(ba.live):
+        bs = ba.bool_switch(i)
+        if bs is None:
+            continue
+        t_t, f_t, (kind, info) = bs
+        if kind == "call" and (call_matches(info[1], rx) or any(p_ in ws for p_ in callee_paths(info[1]))):
+            out.append((i, t_t, f_t, info[0]))
+    return out
+
+
+def release_sites(body, kind, prog=None):
     """Blocks of `body` that give tokens back through ServerState::release, by what they release:
     'surplus'  everything but the own token: release_except_mine(fds), or release(fds, n) with n computed as
                `my_tokens - 1`;
-    'one'      one token: release_mine(fds), or release(fds, 1)."""
+    'one'      one token: release_mine(fds), or release(fds, 1).
+    With `prog`, a call of a local function on all of whose paths such a call lies counts as that call."""
     ba = BA.of(body)
     out = []
     if kind == "surplus":
-        out += ba.calls(r"jobserver::ServerState::release_except_mine")
+        out += ba.calls_deep(r"jobserver::ServerState::release_except_mine", prog) if prog is not None else ba.calls(r"jobserver::ServerState::release_except_mine")
     else:
-        out += ba.calls(r"jobserver::ServerState::release_mine")
+        out += ba.calls_deep(r"jobserver::ServerState::release_mine", prog) if prog is not None else ba.calls(r"jobserver::ServerState::release_mine")
     for i in ba.calls(r"jobserver::ServerState::release"):
         args = body.blocks[i]["term"]["args"]
         if len(args) < 3:
@@ -566,7 +1091,7 @@ def release_sites(body, kind):
             d2 = ba.single_def(op_place(rv["op"])["l"])
             rv = d2[3] if d2 and d2[0] == "stmt" else None
         if (kind == "surplus" and rv is not None and rv["k"] == "binop" and rv["op"].startswith("Sub") and const_int(rv["b"]) == 1
-                and common.reads_field(body, {"k": "use", "op": rv["a"]}, "jobserver::ServerState.my_tokens")):
+                and common.reads_field(body, {"k": "use", "op": rv["a"]}, Roles.of(prog).my if prog is not None else "jobserver::ServerState.my_tokens")):
             out.append(i)
     return sorted(set(out))
 
@@ -578,6 +1103,33 @@ def fd_calls(body, rx, field, arg=0):
     return [i for i in ba.calls(rx)
             if len(body.blocks[i]["term"]["args"]) > arg
             and common.reads_field(body, {"k": "use", "op": body.blocks[i]["term"]["args"][arg]}, field)]
+
+
+def fd_load_block(body, bb, field, arg=0, depth=8):
+    """The block where the fd operand (argument `arg`) of the call at block bb is read out of the place under
+    `field`: where that use of the pipe begins. With a read helper spliced into the caller this is the block that
+    enters it (the helper may return early - nothing readable - before it reaches the read system call)."""
+    ba = BA.of(body)
+    t = body.blocks[bb]["term"]
+    if len(t["args"]) <= arg:
+        return bb
+    p = op_place(t["args"][arg])
+    if p is None or field in place_fields(p):
+        return bb
+    todo = [(p["l"], 0)]
+    seen = set()
+    while todo:
+        l, d = todo.pop()
+        if l in seen or d > depth:
+            continue
+        seen.add(l)
+        for df in ba.defs.get(l, []):
+            if df[0] == "stmt":
+                for q in rvalue_places(df[3]):
+                    if field in place_fields(q):
+                        return df[1]
+                    todo.append((q["l"], d + 1))
+    return bb
 
 
 def adt_field_index(prog, adt, field):
@@ -594,14 +1146,15 @@ def surplus_released(ctx, rid):
     handled: create_tokens(1) -> has_token() -> release_except_mine, so that a wake-up that reaps
     several children cannot leave my_tokens > 1."""
     prog = ctx.prog
+    R = Roles.of(prog)
     bo = anchors.event_loop(prog)
     ba = BA.of(bo)
-    cts = ba.calls(r"jobserver::ServerState::create_tokens")
-    rel = release_sites(bo, "surplus")
+    cts = [x.entry for x in create_sites(prog, bo)]
+    rel = release_sites(bo, "surplus", prog)
     removes = ba.calls(r"std::collections::hash::map::HashMap::remove")
     # "holds a token" tests: has_token() or a comparison my_tokens >= 1 in any spelling -> (switch, token side)
     tests = [(sw, t_t) for (sw, t_t, f_t, c) in ba.switches_on_call(r"jobserver::ServerState::has_token")]
-    tests += ge_edges(bo, "jobserver::ServerState.my_tokens", at_least=1)
+    tests += ge_edges(bo, R.my, at_least=1)
     ok = False
     if cts and rel and removes and tests:
         ok = True
@@ -613,6 +1166,79 @@ def surplus_released(ctx, rid):
     ctx.ob(rid, "%s|surplus-released-after-recreate" % bo.key, ok, where=ctx.where(bo, cts[0]) if cts else bo.span,
            detail="create_tokens(1) is followed by has_token() => release_except_mine() before the job is forgotten" if ok else
            "the surplus is not released after the child's token was recreated: two children reaped in one wake-up leave my_tokens == 2 and the `my_tokens == 1` assertions fire")
+
+
+def const_value(body, rv):
+    """The constant an rvalue denotes: ('bool', b) / ('int', k) for a literal, ('variant', adt, name) for a
+    field-less enum variant (built in place or in a temporary that is moved here), else None."""
+    ba = BA.of(body)
+    for _ in range(6):
+        if rv["k"] == "agg" and rv.get("agg") == "adt" and not rv["ops"] and rv.get("variant") is not None:
+            return ("variant", rv["adt"], rv["variant"])
+        if rv["k"] != "use":
+            return None
+        c = op_const(rv["op"])
+        if c is not None:
+            if "bool" in c:
+                return ("bool", bool(c["bool"]))
+            if "int" in c:
+                return ("int", c["int"])
+            return None
+        p = op_place(rv["op"])
+        if p is None or p["p"]:
+            return None
+        d = ba.single_def(p["l"])
+        if d is None or d[0] != "stmt":
+            return None
+        rv = d[3]
+    return None
+
+
+def self_marks(body):
+    """[(canonical field, constant)] fields of the receiver (`self`, parameter 1) that `body` sets to a constant."""
+    ba = BA.of(body)
+    out = []
+    for i in sorted(ba.live):
+        if body.is_cleanup(i):
+            continue
+        for s in body.blocks[i]["stmts"]:
+            if s["s"] != "assign" or not s["place"]["p"]:
+                continue
+            fs = place_fields(s["place"])
+            if len(fs) != 1 or 1 not in ba.ref_chain(s["place"]["l"]):
+                continue
+            v = const_value(body, s["rv"])
+            if v is not None:
+                out.append((fs[0], v))
+    return out
+
+
+def field_value_edges(body, field, val):
+    """CFG edges [(switch_bb, target)] of `body` taken exactly when a place ending in `field` holds the constant
+    `val`: the matching side of a bool test (through `!`), the arm of that variant of a `match` on the field."""
+    ba = BA.of(body)
+    out = []
+    for sw in sorted(ba.live):
+        t = body.blocks[sw]["term"]
+        if t["t"] != "switch":
+            continue
+        if val[0] == "bool":
+            bs = ba.bool_switch(sw)
+            if bs and bs[2][0] == "place" and place_fields(bs[2][1])[-1:] == [field] and bs[0] != bs[1]:
+                out.append((sw, bs[0] if val[1] else bs[1]))
+        elif val[0] == "variant":
+            es = ba.enum_switch(sw)
+            if not es or place_fields(es[0])[-1:] != [field] or t.get("enum") not in (None, val[1]):
+                continue
+            dv = {n: v for v, n in (t.get("enum_variants") or [])}.get(val[2])
+            if dv is None:
+                continue
+            place, arms, other = es
+            tg = arms.get(dv, other)
+            others = [x for v, x in arms.items() if v != dv] + ([other] if dv in arms and other in body.succ(sw) else [])
+            if tg is not None and tg not in others:
+                out.append((sw, tg))
+    return out
 
 
 def in_child_arm(st, bb):
@@ -630,36 +1256,6 @@ def in_child_arm(st, bb):
         if ba.edge_dominates((sw, ch), bb) and ch != arms.get(0):
             return True
     return False
-
-
-def add_operand(body, w):
-    """For a field write `X.f = tmp.0` where tmp = AddWithOverflow(X.f, k): return ('int', k) or
-    ('local', l) for the addend."""
-    bb, j, s = w
-    ba = BA.of(body)
-    rv = s["rv"]
-    p = op_place(rv.get("op")) if rv["k"] == "use" else None
-    if rv["k"] == "binop":
-        b = rv
-    elif p is not None:
-        d = ba.single_def(p["l"])
-        if not d or d[0] != "stmt" or d[3]["k"] != "binop":
-            return None
-        b = d[3]
-    else:
-        return None
-    if not b["op"].startswith(("Add", "Sub")):
-        return None
-    k = const_int(b["b"])
-    if k is not None:
-        return ("int", k)
-    l = op_local(b["b"])
-    if l is not None:
-        # normalise through copies
-        sl, _, _ = backward_direct(body, l)
-        named = sorted(x for x in sl if body.local_name(x) != "_%d" % x)
-        return ("local", named[0] if named else l)
-    return None
 
 
 POLL_FN = r"futures_util::future::poll_fn::poll_fn"
@@ -770,21 +1366,28 @@ def select_arms(prog, S, pbb, origins):
     return out if len(out) == len(variant_future) else None
 
 
-def classify_waits(S, prog=None):
+def classify_waits(S, prog=None, depth=3):
     """Classify the awaits of the scheduler by what they wait for.
     Returns dict: 'gain' -> ready blocks of awaits completing an ensure_token_or_cheat (directly, as the
     foreground future of wait_for, or as an arm of a `select!`: then the block entered on that arm);
-    'loss' -> ready blocks of awaits of wait_all (the process may come back with no token)."""
+    'loss' -> ready blocks of awaits of wait_all (the process may come back with no token);
+    'nested' -> [(poll block, ready block, body)] awaits of a local coroutine of the builder that is neither
+    (part of the scheduling passes moved into an `async fn` awaited in place): token_points() summarises what it
+    does to the process's token, the rules that look at Lock calls visit it as part of the scheduler."""
     ba = BA.of(S)
-    gain, loss, other = [], [], []
+    gain, loss, other, nested = [], [], [], []
 
-    def put(pbb, ready, names):
+    def put(pbb, ready, names, callee=None):
         if any(n.endswith("JobServerHandle::ensure_token_or_cheat") for n in names):
             gain.append((pbb, ready))
         elif any(n.endswith("JobServerHandle::wait_all") for n in names):
             loss.append((pbb, ready))
         else:
             other.append((pbb, ready, sorted(names)))
+            B = prog.bodies.get(callee) if (prog is not None and callee) else None
+            if (B is not None and B.coroutine and B.key != S.key and B.key.startswith("builder::")
+                    and not any(n.endswith("builder::wait_for") for n in names)):
+                nested.append((pbb, ready, B))
 
     for (pbb, y, ready, callee) in ba.awaits():
         t = S.blocks[pbb]["term"]
@@ -794,53 +1397,107 @@ def classify_waits(S, prog=None):
             for blk, fl in arms:
                 put(pbb, blk, future_names(S, fl)[0])
         else:
-            put(pbb, ready, names)
-    return {"gain": gain, "loss": loss, "other": other}
+            put(pbb, ready, names, callee)
+    return {"gain": gain, "loss": loss, "other": other, "nested": nested}
+
+
+class TokenPoints:
+    """What a body of the scheduler does to the process's job token, as points of its CFG:
+    loss   [(name, block entered, site)] points after which the process may hold no token: the resume of wait_all,
+           the return of release_mine, the return of a job start (which destroys the token); and the completion of
+           an awaited nested coroutine that can end in such a state (name = the kind of loss inside it);
+    gains  blocks entered when an ensure_token_or_cheat completed (or a nested coroutine that always ends with one);
+    sinks  {'job-start': [blocks], 'release_mine': [blocks]} calls that assert on the token count; the poll of a
+           nested coroutine that can reach such a call before any gain of its own counts as that call;
+    nested [(poll, ready, TokenPoints)]."""
+
+    def __init__(self, prog, B, depth=3):
+        self.B = B
+        ba = BA.of(B)
+        start_key = anchors.job_start(prog).key
+        cw = classify_waits(B, prog)
+        self.gains = {r for _, r in cw["gain"] if r is not None}
+        self.n_gain = len(self.gains)
+        self.n_loss = len(cw["loss"])
+        starts = ba.calls(re.escape(start_key))
+        rms = ba.calls(r"jobserver::JobServerHandle::release_mine")
+        self.loss = [("wait_all-resume", r, p) for p, r in cw["loss"] if r is not None]
+        self.loss += [("release_mine-return", B.blocks[i]["term"].get("target"), i) for i in rms]
+        self.loss += [("job-start-return", B.blocks[i]["term"].get("target"), i) for i in starts]
+        self.sinks = {"job-start": list(starts), "release_mine": list(rms)}
+        self.nested = []
+        if depth > 0:
+            for (pbb, ready, NB) in cw["nested"]:
+                tp = TokenPoints(prog, NB, depth - 1)
+                self.nested.append((pbb, ready, tp))
+                ends = tp.ends()
+                nba = BA.of(NB)
+                if tp.gains and nba.path([0], ends, avoid=frozenset(tp.gains), incl=True) is None:
+                    if ready is not None:
+                        self.gains.add(ready)
+                    continue
+                for name in sorted({x[0] for x in tp.loss}):
+                    pts = [x[1] for x in tp.loss if x[0] == name and x[1] is not None]
+                    if pts and ready is not None and nba.path(pts, ends, avoid=frozenset(tp.gains), incl=True) is not None:
+                        self.loss.append((name, ready, pbb))
+                for kind, blocks in tp.sinks.items():
+                    if blocks and nba.path([0], blocks, avoid=frozenset(tp.gains), incl=True) is not None:
+                        self.sinks[kind].append(pbb)
+        self.loss.sort(key=lambda x: (x[2], x[0]))
+
+    def ends(self):
+        return common.ok_returns(self.B) or BA.of(self.B).returns()
+
+    def all_parts(self):
+        out = [self]
+        for _, _, tp in self.nested:
+            out.extend(tp.all_parts())
+        return out
 
 
 def token_preconditions(ctx, rid, include_release_mine):
     """Every path from a point where the process may hold no token (resume of wait_all, return of
     release_mine, return of a job start which destroys the token) to the next job start
     (asserts my_tokens == 1) - and to release_mine (asserts >= 1) - passes a completed
-    ensure_token_or_cheat."""
+    ensure_token_or_cheat. Evaluated in the scheduler and in every coroutine it awaits in place (TokenPoints)."""
     prog = ctx.prog
     S = anchors.scheduler(prog)
-    ba = BA.of(S)
-    start_key = anchors.job_start(prog).key
-    cw = classify_waits(S, prog)
-    gains = {r for _, r in cw["gain"] if r is not None}
-    ctx.floor(rid, "awaited ensure_token_or_cheat in the scheduler", len(gains), 2)
-    ctx.floor(rid, "awaited wait_all in the scheduler", len(cw["loss"]), 1)
-    starts = ba.calls(re.escape(start_key))
-    rms = ba.calls(r"jobserver::JobServerHandle::release_mine")
-    loss_points = [("wait_all-resume", r, p) for p, r in cw["loss"] if r is not None]
-    loss_points += [("release_mine-return", S.blocks[i]["term"].get("target"), i) for i in rms]
-    loss_points += [("job-start-return", S.blocks[i]["term"].get("target"), i) for i in starts]
-    sinks = [("job-start", starts)]
-    if include_release_mine:
-        sinks.append(("release_mine", rms))
-    for k, (lname, lb, at) in common.ordinal_keys([(x[0], x) for x in loss_points]):
-        if lb is None:
-            continue
-        # a path that meets another loss point first is that point's instance, not this one's
-        other_loss = {x[1] for x in loss_points if x[1] is not None and x[1] != lb and x[0] != "job-start-return"}
-        for sname, sbs in sinks:
-            p = ba.path([lb], sbs, avoid=frozenset(gains | other_loss), incl=True)
-            ctx.ob(rid, "%s|%s->%s" % (S.key, k, sname), p is None, where=ctx.where(S, at),
-                   detail=("after %s the process may hold no token, yet a path reaches %s (which asserts on the token count) without a completed ensure_token_or_cheat" % (lname, sname))
-                   if p else "token re-acquired on every path from %s to %s" % (lname, sname),
-                   witness={"path": p[:25] if p else None})
+    top = TokenPoints(prog, S)
+    parts = top.all_parts()
+    ctx.floor(rid, "awaited ensure_token_or_cheat in the scheduler", sum(x.n_gain for x in parts), 2)
+    ctx.floor(rid, "awaited wait_all in the scheduler", sum(x.n_loss for x in parts), 1)
+    for tp in parts:
+        B = tp.B
+        ba = BA.of(B)
+        sinks = [("job-start", tp.sinks["job-start"])]
+        if include_release_mine:
+            sinks.append(("release_mine", tp.sinks["release_mine"]))
+        for k, (lname, lb, at) in common.ordinal_keys([(x[0], x) for x in tp.loss]):
+            if lb is None:
+                continue
+            # a path that meets another loss point first is that point's instance, not this one's
+            other_loss = {x[1] for x in tp.loss if x[1] is not None and x[1] != lb and x[0] != "job-start-return"}
+            for sname, sbs in sinks:
+                p = ba.path([lb], sbs, avoid=frozenset(tp.gains | other_loss), incl=True)
+                ctx.ob(rid, "%s|%s->%s" % (B.key, k, sname), p is None, where=ctx.where(B, at),
+                       detail=("after %s the process may hold no token, yet a path reaches %s (which asserts on the token count) without a completed ensure_token_or_cheat" % (lname, sname))
+                       if p else "token re-acquired on every path from %s to %s" % (lname, sname),
+                       witness={"path": p[:25] if p else None})
 
 
 def token_read_guard(ctx, rid):
     prog = ctx.prog
+    R = Roles.of(prog)
     bo = anchors.event_loop(prog)
     ba = BA.of(bo)
-    incs = field_writes(bo, MY)
-    sel = [i for i in ba.calls(r"nix::sys::select::select")]
+    # the increments of the held-token counter that answer a token-pipe read (what is left after the per-child-exit
+    # re-creations, which R8.3 judges) and the select() the loop waits in (try_read's zero-timeout probe is no wait)
+    in_create = {(u.bb, u.idx, u.which) for st_ in create_sites(prog, bo) for u in st_.upds}
+    incs = [u for u in account_updates(R, bo) if u.which == "MY" and (u.bb, u.idx, u.which) not in in_create]
+    sel = blocking_selects(bo)
     if not ctx.ob(rid, "%s|anchors" % bo.key, len(incs) == 1 and len(sel) == 1, where=bo.span, detail="token increment and select() located"):
         return
-    ib = incs[0][0]
+    ib = incs[0].bb
     guards = []
     for sw in sorted(ba.live):
         bs = ba.bool_switch(sw)
@@ -850,7 +1507,7 @@ def token_read_guard(ctx, rid):
         no_token_edge = None
         if kind == "call" and call_matches(info[1], r"jobserver::ServerState::has_token"):
             no_token_edge = f_t
-        elif kind == "binop" and common.reads_field(bo, {"k": "use", "op": info[1]["a"]}, "jobserver::ServerState.my_tokens"):
+        elif kind == "binop" and common.reads_field(bo, {"k": "use", "op": info[1]["a"]}, R.my):
             op, k = info[1]["op"], const_int(info[1]["b"])
             if (op, k) in (("Ge", 1), ("Gt", 0), ("Ne", 0)):
                 no_token_edge = f_t
